@@ -98,7 +98,7 @@ def canon(msg):
 
 def src_of(p):
     try:
-        return open(glob.glob(os.path.join(p["Dir"], "*.go"))[0]).read()
+        return open(glob.glob(os.path.join(p["Dir"], "*.go"))[0]).read(200000)   # (the oversized package is 50 MB of padding)
     except Exception:
         return ""
 
@@ -130,6 +130,7 @@ def run_sc(cwd, patterns, extra=None, timeout=3000):
     except subprocess.TimeoutExpired as e:
         return 124, "", "[timeout after %ss]" % timeout
 
+skipped_big = []
 def judge(rc, so, se):
     """oracle on one staticcheck run: list of (kind, detail)"""
     bad = []
@@ -145,8 +146,12 @@ def judge(rc, so, se):
             continue
         if d.get("code") in ("compile", "config"):
             bad.append((d["code"], "%s: %s" % (d.get("location", {}).get("file", ""), d.get("message", ""))))
-    for m in re.finditer(r"^warning: (skipped package \S+ because it is too large)", se, re.M):
-        # corpora packages are small: not analysing one is a spurious failure of the run
+    for m in re.finditer(r"^warning: (skipped package (\S+) because it is too large)", se, re.M):
+        # corpora packages are small: not analysing one is a spurious failure of the run; the one deliberately
+        # oversized package (a source file of loader.MaxFileSize bytes) is expected to be skipped
+        if m.group(2).endswith("/bigfile/big"):
+            skipped_big.append(m.group(2))
+            continue
         bad.append(("skipped", m.group(1)))
     if not bad and re.search(r"internal error", se):
         bad.append(("internal-error", se.strip().splitlines()[0][:300]))
@@ -566,6 +571,7 @@ ck.finish({
     "dispatch_observations_compared_with_model": int(vals["NC"]) if (vals.get("NC") or "").isdigit() else 0,
     "disagreements_checked": len(obs),
     "real_binary_runs": real_runs,
+    "oversized_package_was_skipped_and_its_importers_analysed": bool(skipped_big),
     "in_process_panics": sorted(k for k in inproc),
     "registry_report": vals.get("R"),
 })
